@@ -214,6 +214,9 @@ type tok struct {
 }
 
 func parseTok(s string) tok {
+	if s == "CX" { // the caller's context ended
+		return tok{op: "CX", n: -1}
+	}
 	p := strings.Split(s, ".")
 	t := tok{op: p[0], n: -1}
 	switch p[0] {
@@ -264,7 +267,7 @@ func OracleC04(run *common.Run, id string, res *Result) int {
 	injected := false
 	for i, s := range res.Toks {
 		t := parseTok(s)
-		if t.op != "RT" && t.n < 0 {
+		if t.op != "RT" && t.op != "CX" && t.n < 0 {
 			fail("unknown-descriptor", fmt.Sprintf("event %s on a descriptor that is not a node of the source graph (altered media type / size / digest?)", s))
 		}
 		switch t.op {
@@ -385,7 +388,7 @@ func OracleC04(run *common.Run, id string, res *Result) int {
 
 // Budget of one harness run.
 type Budget struct {
-	Main, Contention, Twin, CbFail, Mount, Remote, RootPresent, Extended, TwinReach, PlatImage int
+	Main, Contention, Twin, CbFail, Mount, Remote, RootPresent, Extended, TwinReach, PlatImage, Cancel int
 	Sched, SchedReps                      int // graphs run under testing/synctest with the PRNG-controlled scheduler, extra schedules per graph
 	Small                                 bool // small-scope enumeration (graphs <= 3 nodes, sampled 4-node graphs) x roots x closed subsets
 	Reps                           int // extra schedules (latency seeds) per generated case
@@ -513,6 +516,14 @@ func Drive(run *common.Run, prop string, b Budget) {
 		if c.PreTag >= 0 {
 			run.Count("destination reference pre-existing")
 		}
+		if c.CancelAt != 0 {
+			when := map[bool]string{true: "after k events", false: "before the root task starts"}[c.CancelAt > 0]
+			out := "error"
+			if res.Err == nil {
+				out = "success"
+			}
+			run.Count("context ended " + when + " -> " + out)
+		}
 		if c.MountAlways {
 			run.Count("blob root mounted into ReferencePusher/Tagger+Mounter")
 		}
@@ -602,6 +613,7 @@ func Drive(run *common.Run, prop string, b Budget) {
 	stream("extended", b.Extended)
 	stream("mount", b.Mount)
 	stream("remote", b.Remote)
+	stream("cancel", b.Cancel)
 	stream("platimage", b.PlatImage)
 	stream("twin", b.Twin)
 	stream("twinreach", b.TwinReach)
